@@ -120,8 +120,14 @@ def extract(g, X):
         b = X.fn_body(pxr, "read_u64_from_stream")
         (wd,) = X.fn_params(pxr, "read_u64_from_stream")[:1]
         m = re.search(r"if\s+" + wd + r"\s*>\s*(?:(?:std::|core::)?mem::)?size_of::<(\w+)>\(\)", b)
-        i = re.search(r"for\s+(\w+)\s+in\s+\(\s*0\s*\.\.\s*" + wd + r"\s*\)\.rev\(\)", b).group(1)
-        s = re.search(r"(" + B + r")\s*\*\s*" + i + r"\b", b) or re.search(r"\b" + i + r"\s*\*\s*(" + B + r")", b)
+        # big-endian accumulation: a loop with `<< (8 * i)` / `8 * i` per byte, or a fold `(acc << 8) | u64::from(c)`
+        lp = re.search(r"for\s+(\w+)\s+in\s+\(\s*0\s*\.\.\s*" + wd + r"\s*\)\.rev\(\)", b)
+        if lp:
+            i = lp.group(1)
+            s = re.search(r"(" + B + r")\s*\*\s*" + i + r"\b", b) or re.search(r"\b" + i + r"\s*\*\s*(" + B + r")", b)
+        else:
+            s = re.search(r"\.fold\(\s*0\w*\s*,\s*\|\s*(\w+)\s*,\s*&?\s*(\w+)\s*\|\s*\(?\s*\1\s*<<\s*(" + B + r")\s*\)?\s*[|+]\s*u64::from\(\s*\2\s*\)", b)
+            s = s and re.match(r"(\d+)", str(iv(s.group(3))))
         return str(BITS[m.group(1)] // 8), str(iv(s.group(1)))
     g.attempt([("xr_u64_width", "N"), ("xr_byte_bits", "N")], "parse_xref.rs:read_u64_from_stream", width)
 
